@@ -122,7 +122,16 @@ impl Clone for DalekSignature {
     fn clone(&self) -> (r: Self) ensures r == *self { unimplemented!() }
 }
 impl Copy for DalekSignature {}
-pub struct Transaction { pub t: u64, pub offset: BlindingFactor }
+// secp RangeProof (opaque) and grin_core OutputFeatures
+#[derive(PartialEq, Eq, Structural)]
+pub struct RangeProof { pub p: u8 }
+impl Clone for RangeProof { #[verifier::external_body] fn clone(&self) -> (r: Self) ensures r == *self { unimplemented!() } }
+impl Copy for RangeProof {}
+#[derive(Clone, Copy, PartialEq, Eq, Structural)]
+pub enum OutputFeatures { Plain, Coinbase }
+// grin_core::core::Transaction { offset, body }: the body is an opaque value with ghost views (prelude/crypto.rs)
+pub struct TransactionBody { pub t: u64 }
+pub struct Transaction { pub body: TransactionBody, pub offset: BlindingFactor }
 pub struct SlatepackAddress { pub pub_key: DalekPublicKey }
 impl Clone for SlatepackAddress { #[verifier::external_body] fn clone(&self) -> (r: Self) ensures r == *self { unimplemented!() } }
 
@@ -287,7 +296,7 @@ pub uninterp spec fn spec_coinbase_maturity() -> u64;
 pub uninterp spec fn spec_reward(fees: u64) -> u64;   // consensus::reward = REWARD.saturating_add(fees)
 #[verifier::external_body]
 pub fn reward(fees: u64) -> (r: u64) ensures r == spec_reward(fees) { unimplemented!() }
-pub struct Output { pub o: u8 }
+pub struct Output { pub features: OutputFeatures, pub commit: Commitment, pub prf: RangeProof }
 pub struct TxKernel { pub k: u8 }
 pub mod reward { pub use crate::reward_output as output; }
 #[verifier::external_body]
